@@ -234,6 +234,7 @@ func runCase(idx int, cseed uint64, cfg runCfg, worker int) caseOut {
 			root = g.Document()
 		}
 	}
+	g.Finish(root)
 	avoid := !cfg.known
 	input := Serialize(root, avoid)
 	var skb strings.Builder
